@@ -348,6 +348,9 @@ pub struct WorldSys {
 	pub judge_probes: bool,
 	/// probes (payment index) issued while the prober's own update_fee was in flight
 	pub probes_with_fee_in_flight: Vec<usize>,
+	/// probes (payment index) issued by the channel funder while its fee estimate had moved above the channel's
+	/// committed feerate and no update_fee for it was on the wire yet (the update waits in the holding cell)
+	pub probes_with_fee_queued: Vec<usize>,
 }
 
 impl WorldSys {
@@ -400,6 +403,7 @@ impl WorldSys {
 			probes: Vec::new(),
 			judge_probes: true,
 			probes_with_fee_in_flight: Vec::new(),
+			probes_with_fee_queued: Vec::new(),
 		}
 	}
 
@@ -646,6 +650,8 @@ impl WorldSys {
 						self.probes.push((last, kind, lim, min));
 						if fee_in_flight {
 							self.probes_with_fee_in_flight.push(last);
+						} else if cd.is_outbound && cd.feerate_sat_per_1000_weight.map(|f| *self.w.nodes[node].fee.sat_per_kw.lock().unwrap() > f).unwrap_or(false) {
+							self.probes_with_fee_queued.push(last);
 						}
 					}
 				}
@@ -1299,6 +1305,17 @@ impl System for WorldSys {
 							"send-limits-exact",
 							format!(
 								"fields=[limit-reported-while-own-update_fee-in-flight-ignores-the-new-feerate]: HTLC of {} msat, exactly the reported next_outbound_htlc_limit_msat, was queued behind the sender's own uncommitted update_fee and refused locally when released (PaymentFailed, nothing sent, channel unharmed)",
+								p.amount_msat
+							),
+						));
+					}
+					if kind == ProbeKind::AtLimit && self.probes_with_fee_queued.contains(&pi) && p.send_ok && add_sent && !sent && failed {
+						// same root cause, other manifestation: the funder's feerate increase was still waiting in the holding
+						// cell at the probe; add + update_fee went out together and the peer failed the HTLC back
+						return Err(Failure::new(
+							"send-limits-exact",
+							format!(
+								"fields=[limit-reported-while-own-feerate-increase-queued-ignores-the-new-feerate]: HTLC of {} msat, exactly the reported next_outbound_htlc_limit_msat, was sent together with the funder's queued update_fee and failed back by the peer (PaymentFailed, channel unharmed)",
 								p.amount_msat
 							),
 						));
